@@ -34,6 +34,7 @@ func checkC18(c *Ctx) {
 	c.Rule("C18.R2", "every lock acquired is released on all exits (explicitly or by defer); the lock acquisition order graph (including acquisitions made by callees while a lock is held) is acyclic")
 	c.Rule("C18.R3", "every store into a dependent* set is paired with setting the function's another-pass result, and callers in the extraction/filter loops turn that result into a request for another pass")
 	c.Rule("C18.R4", "every store, during a concurrent pass, into a Data field that some KeepFunc defined in the package consults must request another pass (otherwise a keep decision taken before the store is never re-evaluated and the result depends on the schedule)")
+	c.Rule("C18.R6", "pass barrier: every iteration of the pass loop joins the workers it started (Wait) before the another-pass flag is read or reset, and inside a worker each object reaches its process function on its type alone (no pass-dependent skipping)")
 	c.Rule("C18.R5", "the concurrent process* functions and their sequential *NoCopy twins have the same query → keep → store → register → request-pass summary")
 	p := c.P.Pkg("encoding/osm")
 	if p == nil {
@@ -60,6 +61,8 @@ func checkC18(c *Ctx) {
 	a.r3()
 	a.r4()
 	a.r5()
+	a.passBarrier()
+	c.Floor("C18.R6", 2)
 	c.Floor("C18.R1", 8)
 	c.Floor("C18.R2", 5)
 	c.Floor("C18.R3", 8)
@@ -982,5 +985,153 @@ func (a *c18) r5() {
 	}
 	if n == 0 {
 		c.Unk("C18.R5", "encoding/osm#twins", token.NoPos, "no process*/…NoCopy twin pairs found")
+	}
+}
+
+// ---------------------------------------------------------------- R6
+
+// passBarrier: (a) the spawner reads / resets the another-pass flag only when no worker can
+// still be running: at the end of every iteration of the pass loop the workers started for
+// that pass have been joined by Wait (a flow fact, not a source position); (b) inside a
+// worker every object is handed to its process function unconditionally — the dispatch is on
+// the object's type alone, so that each pass re-examines all three kinds.
+func (a *c18) passBarrier() {
+	c := a.c
+	efd := c.P.Decl(a.extract)
+	name := c.P.FuncName(a.extract)
+	isGroupCall := func(n ast.Node, which string) bool {
+		found := false
+		ast.Inspect(n, func(m ast.Node) bool {
+			if _, isLit := m.(*ast.FuncLit); isLit {
+				return false
+			}
+			if call, ok := m.(*ast.CallExpr); ok {
+				if f := callee(a.info, call); f != nil && f.Name() == which && f.Pkg() != nil && (strings.HasSuffix(f.Pkg().Path(), "errgroup") || f.Pkg().Path() == "sync") {
+					found = true
+				}
+			}
+			return !found
+		})
+		return found
+	}
+	// the flag (as in passFlag)
+	var flag types.Object
+	for _, l := range a.lits {
+		ast.Inspect(l.Body, func(n ast.Node) bool {
+			if as, ok := n.(*ast.AssignStmt); ok && len(as.Lhs) == 1 && len(as.Rhs) == 1 {
+				if v := constOf(a.info, as.Rhs[0]); v != nil && v.String() == "true" {
+					if o := objOf(a.info, as.Lhs[0]); o != nil && !(l.Pos() <= o.Pos() && o.Pos() <= l.End()) {
+						flag = o
+					}
+				}
+			}
+			return true
+		})
+	}
+	if flag == nil {
+		return // reported by passFlag
+	}
+	var loop *ast.ForStmt
+	ast.Inspect(efd.Body, func(n ast.Node) bool {
+		if fs, ok := n.(*ast.ForStmt); ok && fs.Cond != nil && loop == nil {
+			mentions := false
+			ast.Inspect(fs.Cond, func(m ast.Node) bool {
+				if id, ok := m.(*ast.Ident); ok && objOf(a.info, id) == flag {
+					mentions = true
+				}
+				return true
+			})
+			if mentions {
+				loop = fs
+			}
+		}
+		return true
+	})
+	cons := name + "#pass-barrier"
+	if loop == nil {
+		c.Unk("C18.R6", cons, efd.Pos(), "no loop conditioned on the another-pass flag `%s` found", flag.Name())
+	} else {
+		// workers spawned before the loop keep running across iterations
+		spawnedBefore := false
+		for _, st := range efd.Body.List {
+			if st.End() <= loop.Pos() && isGroupCall(st, "Go") {
+				spawnedBefore = true
+			}
+		}
+		ok := true
+		cl := &FactsClient{}
+		cl.OnStmt = func(n ast.Node, s Facts) Facts {
+			var scope ast.Node = n
+			if rs, isR := n.(*ast.RangeStmt); isR {
+				scope = rs.X
+			}
+			if isGroupCall(scope, "Go") {
+				delete(s, "joined")
+			}
+			if isGroupCall(scope, "Wait") {
+				s["joined"] = true
+			}
+			return s
+		}
+		cl.OnBranch = func(cond ast.Expr, truth bool, s Facts) Facts {
+			if isGroupCall(cond, "Wait") {
+				s["joined"] = true
+			}
+			return s
+		}
+		cl.OnReturn = func(r *ast.ReturnStmt, s Facts) {
+			if r == nil && !s["joined"] {
+				ok = false
+			}
+		}
+		init := Facts{}
+		if !spawnedBefore {
+			init["joined"] = true
+		}
+		fl := &Flow[Facts]{C: cl, Info: a.info}
+		fl.Run(loop.Body, init)
+		switch {
+		case len(fl.Unsupported) > 0:
+			c.Unk("C18.R6", cons, fl.Unsupported[0].Pos(), "unsupported control flow in the pass loop")
+		case ok:
+			c.OK("C18.R6", cons, loop.Pos(), "every iteration ends after Wait has joined the workers it started: `%s` is read and reset with no worker running", flag.Name())
+		default:
+			c.Unk("C18.R6", cons, loop.Pos(), "an iteration of the pass loop can end — and `%s` be read and reset for the next pass — while workers that may still set it are running (they are not joined by Wait inside the iteration); whether some other hand-shake makes every worker's last store visible first is not decided, and if it does not, a request for another pass is lost and the result is not reference-closed", flag.Name())
+		}
+	}
+	// (b) unconditional dispatch
+	for i, l := range a.lits {
+		dcons := fmt.Sprintf("%s#dispatch", name)
+		if i > 0 {
+			dcons = fmt.Sprintf("%s#dispatch#%d", name, i+1)
+		}
+		var guarded *ast.CallExpr
+		var guard *ast.IfStmt
+		n := 0
+		ast.Inspect(l.Body, func(m ast.Node) bool {
+			call, ok := m.(*ast.CallExpr)
+			if !ok {
+				return true
+			}
+			f := callee(a.info, call)
+			if f == nil || c.P.Decl(f) == nil || !strings.HasPrefix(f.Name(), "process") {
+				return true
+			}
+			n++
+			for _, anc := range enclosing(l.Body, call) {
+				if is, ok := anc.(*ast.IfStmt); ok && !containsNode(is.Cond, call) && (is.Init == nil || !containsNode(is.Init, call)) && guarded == nil {
+					guarded, guard = call, is
+				}
+			}
+			return true
+		})
+		switch {
+		case n == 0:
+			c.Unk("C18.R6", dcons, l.Pos(), "the worker calls no process function")
+		case guarded != nil:
+			c.Unk("C18.R6", dcons, guarded.Pos(), "`%s` runs only under `if %s`: objects of that kind are skipped in some passes, so an object registered as needed during such a pass (by any of the registration sites, not only the one that sets this condition) is never stored; completeness of the fixpoint is not established", src(guarded), src(guard.Cond))
+		default:
+			c.OK("C18.R6", dcons, l.Pos(), "%d process calls, each reached for every object of its type in every pass", n)
+		}
 	}
 }
